@@ -84,8 +84,8 @@ theorem quiet_step (cfg : Cfg) (s : State) (op : Op) (hq : Quiet op) : Sub (step
       fun e h => ⟨e, h, rfl⟩⟩
   | audit => exact Sub.refl s
   | store _ _ _ => exact absurd hq id
-  | ingest _ _ => exact absurd hq id
-  | announce _ _ _ _ _ _ _ => exact absurd hq id
+  | ingest _ _ _ => exact absurd hq id
+  | announce _ _ _ _ _ _ _ _ => exact absurd hq id
   | reannounce _ _ _ => exact absurd hq id
   | lookup _ => exact absurd hq id
 
@@ -103,10 +103,10 @@ theorem last_mono_step {cfg : Cfg} {s : State} (h : Inv cfg s) (op : Op) : s.las
   cases op with
   | adv d => exact Int.le_refl _
   | store c ttl hint => exact Int.le_refl _
-  | ingest c e => show _ ≤ (ingest cfg s c e).lastCleanup; rw [(ingest_frame cfg s c e).2.1]; exact Int.le_refl _
-  | announce c e p pid addr ttl hint =>
-    show _ ≤ (announce cfg s c e p pid addr ttl hint).lastCleanup
-    rw [(announce_frame cfg s c e p pid addr ttl hint).2.1]; exact Int.le_refl _
+  | ingest c e same => show _ ≤ (ingest cfg s c e same).lastCleanup; rw [(ingest_frame cfg s c e same).2.1]; exact Int.le_refl _
+  | announce c e same p pid addr ttl hint =>
+    show _ ≤ (announce cfg s c e same p pid addr ttl hint).lastCleanup
+    rw [(announce_frame cfg s c e same p pid addr ttl hint).2.1]; exact Int.le_refl _
   | reannounce c ttl hint =>
     show _ ≤ (reannounce cfg s c ttl hint).lastCleanup
     rw [(reannounce_frame cfg s c ttl hint).2.1]; exact Int.le_refl _
